@@ -7,8 +7,8 @@ the first thing it does, for *every* prior state of the session (so: whatever ha
 connections): `Session.beginConnect` (the three resets at the top of `Session::connect`),
 `World.startConnect` (`connect` up to its first await) and `doLocalWrite … 0 …` (the `write_all` of
 the CONNECT). `World.connectStart` is the world after the resets, with the new transport opened.
-Not proved: that the handshake then *completes* against a conformant broker over a healthy transport
-(a liveness statement about the whole machine); what an accepted CONNACK leaves behind is C05.
+That the handshake then *completes* against a broker whose CONNACK the client accepts, over a healthy
+transport, is `Theorems/C12Machine.lean` (bounded liveness); what an accepted CONNACK leaves behind is C05.
 
 Finding kept explicit (room): CONNECT is encoded into the scratch space of the transmit arena, i.e.
 into `capacity − Σ len(retained packets)` bytes. When the retained packets leave less than
